@@ -20,7 +20,8 @@ scratch = tempfile.mkdtemp(prefix='txv-seedrepo-')
 clone = os.path.join(scratch, 'repo')
 subprocess.run(['git', 'clone', '-q', '/repo', clone], check=True)
 head = subprocess.run(['git', '-C', '/repo', 'rev-parse', '--short', 'HEAD'], stdout=subprocess.PIPE).stdout.decode().strip()
-env = dict(os.environ, TXDBUS_REPO=clone)
+env = dict(os.environ, TXDBUS_REPO=clone, TXV_EVIDENCE_DIR=os.path.join(scratch, 'evidence'),
+           TXV_REPLAY_DIR=os.path.join(scratch, 'replays'))
 try:
     for n in names:
         meta = json.load(open('%s/seeded/%s/meta.json' % (ROOT, n)))
